@@ -51,6 +51,14 @@ def make_cases(prop, seed, n):
     profile, size, _ = PROFILES[prop]
     rng = random.Random((seed, prop).__repr__())
     cases = gen.generate(rng.randint(0, 2**31), n, tuple(p for p in profile if p != "raises"), size)
+    # about half of the programs are reshaped towards the corner cases of the property (vf/flo/shape.py):
+    # branchy conditional auxiliaries completing later, shared originals, deep forests, exit-context bids ...
+    from ..flo import shape
+    shaped = []
+    for (prog, envs, ticks) in cases:
+        used = shape.apply(rng, prop, prog, 0.5)
+        shaped.append((prog, envs, ticks + (3 if used else 0)))
+    cases = shaped
     if "raises" in profile:
         for (prog, envs, ticks) in cases:
             if rng.random() < 0.6:
